@@ -124,6 +124,10 @@ def _analyze_expression(
 ) -> ufl.core.expr.Expr:
     """Analyzes and preprocesses expressions."""
     preserve_geometry_types = (ufl.classes.Jacobian,)
+    # As for forms (ufl.algorithms.compute_form_data): comparisons of complex
+    # quantities are rejected, provably real operands are wrapped in Real
+    if np.issubdtype(scalar_type, np.complexfloating):
+        expression = ufl.algorithms.comparison_checker.do_comparison_check(expression)
     expression = ufl.algorithms.apply_algebra_lowering.apply_algebra_lowering(expression)
     expression = ufl.algorithms.apply_derivatives.apply_derivatives(expression)
     expression = ufl.algorithms.apply_function_pullbacks.apply_function_pullbacks(expression)
